@@ -46,15 +46,26 @@ func (c *fclock) peek() int64 { c.mu.Lock(); defer c.mu.Unlock(); return c.n }
 
 func tOf(t time.Time) int64 { return t.UnixNano() - time.Unix(2000, 0).UnixNano() }
 
-// equivalence used when configured: two messages are equivalent iff both are present and agree on default_int32
-func equiv(x, y proto.Message) bool {
+// equivalences used when configured: two messages are equivalent iff both are present and agree on default_int32
+// (exact, an equivalence relation) or differ by at most 1 there (a tolerance: reflexive and symmetric, NOT transitive,
+// like the float tolerances the trait models configure). With a tolerance it matters which value a write is compared
+// with: the one the subscriber holds (last emitted to it).
+func equiv(x, y proto.Message) bool { return equivTol(x, y, 0) }
+
+func equivTol(x, y proto.Message, tol int32) bool {
 	a, _ := x.(*tat)
 	b, _ := y.(*tat)
 	if a == nil || b == nil {
 		return false
 	}
-	return a.DefaultInt32 == b.DefaultInt32
+	d := a.DefaultInt32 - b.DefaultInt32
+	if d < 0 {
+		d = -d
+	}
+	return d <= tol
 }
+
+func (w *world) equiv(x, y proto.Message) bool { return equivTol(x, y, w.tol) }
 
 type subSpec struct {
 	UpdatesOnly bool     `json:"updatesOnly"`
@@ -91,6 +102,8 @@ type subscriber struct {
 	seen int
 	last proto.Message // value the subscriber holds (Value streams, for equivalence)
 	held bool
+	// Collection streams with an equivalence: per id the value the subscriber holds (last sent to it)
+	heldBy map[string]proto.Message
 }
 
 func (s *subscriber) take() []rev {
@@ -110,6 +123,7 @@ type world struct {
 	state  sm.State
 	times  map[string]bracket // stored change time of each item
 	eq     bool
+	tol    int32 // tolerance of the equivalence (0: exact)
 	smu    sync.Mutex
 	subs   []*subscriber
 	trace  []string
@@ -128,11 +142,15 @@ func info() sm.TypeInfo {
 }
 
 func newWorld(r *vk.Run, isVal bool, eq bool, init map[string]*tat) *world {
-	w := &world{r: r, isVal: isVal, eq: eq, clock: &fclock{}, state: sm.State{}, times: map[string]bracket{}}
+	return newWorldTol(r, isVal, eq, 0, init)
+}
+
+func newWorldTol(r *vk.Run, isVal bool, eq bool, tol int32, init map[string]*tat) *world {
+	w := &world{r: r, isVal: isVal, eq: eq, tol: tol, clock: &fclock{}, state: sm.State{}, times: map[string]bracket{}}
 	w.model = &sm.Model{Cfg: sm.Config{IsValue: isVal, NilWritable: true}, Type: info()}
 	opts := []resource.Option{resource.WithClock(w.clock)}
 	if eq {
-		opts = append(opts, resource.WithEquivalence(resource.ComparerFunc(equiv)))
+		opts = append(opts, resource.WithEquivalence(resource.ComparerFunc(w.equiv)))
 	}
 	ids := make([]string, 0, len(init))
 	for id := range init {
@@ -200,7 +218,7 @@ func (w *world) viol(clause, detail string, s *subscriber) {
 		}
 	}
 	w.failed = true
-	w.r.Violation(fmt.Sprintf("C04/%s/%s/%s", clause, res, opt), fmt.Sprintf("%s\nsubscriber: %v equivalence=%v\ntrace:\n%s", detail, specOf(s), w.eq, strings.Join(w.trace, "\n")), map[string]any{"trace": w.trace})
+	w.r.Violation(fmt.Sprintf("C04/%s/%s/%s", clause, res, opt), fmt.Sprintf("%s\nsubscriber: %v equivalence=%v tolerance=%d\ntrace:\n%s", detail, specOf(s), w.eq, w.tol, strings.Join(w.trace, "\n")), map[string]any{"trace": w.trace})
 }
 
 func specOf(s *subscriber) string {
@@ -315,6 +333,14 @@ func (w *world) checkSeed(s *subscriber) bool {
 	if w.isVal && len(want) > 0 {
 		s.last, s.held = want[0].new, true
 	}
+	if !w.isVal && w.eq {
+		if s.heldBy == nil {
+			s.heldBy = map[string]proto.Message{}
+		}
+		for _, x := range want {
+			s.heldBy[x.id] = x.new
+		}
+	}
 	return true
 }
 
@@ -370,9 +396,27 @@ func (w *world) write(op sm.Op) bool {
 			suppressed := false
 			if w.eq {
 				if w.isVal {
-					suppressed = s.held && equiv(s.last, x.new)
+					suppressed = s.held && w.equiv(s.last, x.new)
 				} else {
-					suppressed = equiv(x.old, x.new)
+					// judged against what this subscriber holds for the id; before anything was sent for the id that
+					// is taken to be the previous stored value
+					if s.heldBy == nil {
+						s.heldBy = map[string]proto.Message{}
+					}
+					prev, known := s.heldBy[x.id]
+					if !known {
+						prev = x.old
+					}
+					suppressed = w.equiv(prev, x.new)
+					switch {
+					case suppressed && !known && !isNil(prev):
+						s.heldBy[x.id] = prev
+					case suppressed:
+					case isNil(x.new):
+						delete(s.heldBy, x.id)
+					default:
+						s.heldBy[x.id] = x.new
+					}
 				}
 			}
 			if !suppressed {
@@ -467,6 +511,7 @@ func colOps() []opGen {
 	add("add-b", func(n int) sm.Op { return sm.Op{Kind: sm.Add, ID: "b", Val: val(2, "y")} })
 	add("update-a-diff", func(n int) sm.Op { return up("a", val(int32(3+n%2), "x"), sm.Opts{}) })
 	add("update-a-equiv", func(n int) sm.Op { return up("a", val(1, fmt.Sprintf("s%d", n)), sm.Opts{}) })
+	add("update-a-drift", func(n int) sm.Op { return up("a", val(int32(2+n), "x"), sm.Opts{}) })
 	add("update-a-mask", func(n int) sm.Op {
 		return up("a", val(7, fmt.Sprintf("m%d", n)), sm.Opts{HasUpdateMask: true, UpdateMask: []string{"default_string"}})
 	})
@@ -491,6 +536,7 @@ func valOps() []opGen {
 	}
 	add("set-diff", func(n int) sm.Op { return set(val(int32(3+n%2), "x"), sm.Opts{}) })
 	add("set-equiv", func(n int) sm.Op { return set(val(1, fmt.Sprintf("s%d", n)), sm.Opts{}) })
+	add("set-drift", func(n int) sm.Op { return set(val(int32(2+n), "x"), sm.Opts{}) })
 	add("set-same", func(n int) sm.Op { return set(val(1, "x"), sm.Opts{}) })
 	add("set-mask", func(n int) sm.Op {
 		return set(val(7, fmt.Sprintf("m%d", n)), sm.Opts{HasUpdateMask: true, UpdateMask: []string{"default_string"}})
@@ -514,10 +560,10 @@ func inits(isVal bool) []map[string]*tat {
 }
 
 // runHistory executes one history with subscribers opened at every position 0..len(seq).
-func runHistory(r *vk.Run, isVal, eq bool, init map[string]*tat, seq []opGen, uo bool, mask []string, sampleKind string) {
-	w := newWorld(r, isVal, eq, init)
+func runHistory(r *vk.Run, isVal, eq bool, tol int32, init map[string]*tat, seq []opGen, uo bool, mask []string, sampleKind string) {
+	w := newWorldTol(r, isVal, eq, tol, init)
 	defer w.close()
-	w.trace = append(w.trace, fmt.Sprintf("isValue=%v equivalence=%v init=%s", isVal, eq, w.state.Render()))
+	w.trace = append(w.trace, fmt.Sprintf("isValue=%v equivalence=%v tolerance=%d init=%s", isVal, eq, w.tol, w.state.Render()))
 	var names []string
 	for i := 0; i <= len(seq); i++ {
 		if !w.open(subSpec{UpdatesOnly: uo, Mask: mask, OpenAt: i}) {
@@ -532,7 +578,10 @@ func runHistory(r *vk.Run, isVal, eq bool, init map[string]*tat, seq []opGen, uo
 		}
 	}
 	r.Count("histories", 1)
-	r.Distinct(fmt.Sprintf("%v|%v|%d|%v|%v|%s", isVal, eq, len(init), uo, mask, strings.Join(names, ",")))
+	r.Distinct(fmt.Sprintf("%v|%v%d|%d|%v|%v|%s", isVal, eq, tol, len(init), uo, mask, strings.Join(names, ",")))
+	if eq && tol > 0 {
+		r.Count("histories-with-tolerance-equivalence", 1)
+	}
 	if r.WantSample(sampleKind) {
 		r.Sample(sampleKind, w.trace)
 	}
@@ -541,7 +590,7 @@ func runHistory(r *vk.Run, isVal, eq bool, init map[string]*tat, seq []opGen, uo
 func run(r *vk.Run) {
 	r.Describe("one writer at a time; histories over an alphabet of successful and failing Set/Add/Update/Delete calls (each with and without WithWriteTime) on a Value and a Collection, from initial contents {empty, one, many}, with backpressured subscribers (updates-only x read mask {none, 3 masks, empty} x equivalence on/off) opened before every step; after every step the process is quiescent and every subscriber's new events are compared with the writer's log (sequential model). Exhaustive for lengths <= 2 (thorough: <= 3), random histories of length 4 (quick) / 100 (thorough). Distinct = (resource, equivalence, initial contents, subscriber options, op-name sequence).",
 		"time: the resource gets a counting fake clock; with WithWriteTime(t) the event time must equal t, otherwise it must be one of the clock readings taken during the call, and a seed must carry a reading taken during the last successful write of that item",
-		"the equivalence used is an equivalence relation (same default_int32) and is applied to what the subscriber holds, i.e. to read-masked values")
+		"two equivalences are used: same default_int32 (an equivalence relation) and |difference of default_int32| <= 1 (a tolerance, not transitive); both are applied to what the subscriber holds for the id (the value last sent to it, read-masked; before anything was sent, the previous stored value), which is what 'suppressed consecutive equivalent values' means for a non-transitive comparer")
 	forcedJoin(r)
 	idx := 0
 	for _, isVal := range []bool{false, true} {
@@ -577,16 +626,24 @@ func run(r *vk.Run) {
 				mask := masks[rng.Intn(len(masks))]
 				if len(seq) == 1 {
 					// single-op histories: all option combinations
-					for _, eq := range []bool{false, true} {
+					for _, eq := range []int{0, 1, 2} {
 						for _, uo := range []bool{false, true} {
 							for _, mask := range masks {
-								runHistory(r, isVal, eq, init, seq, uo, mask, "history")
+								runHistory(r, isVal, eq > 0, int32(eq/2), init, seq, uo, mask, "history")
 							}
 						}
 					}
 					continue
 				}
-				runHistory(r, isVal, eq, init, seq, uo, mask, "history")
+				tol := int32(0)
+				if eq && rng.Bool() {
+					tol = 1
+				}
+				runHistory(r, isVal, eq, tol, init, seq, uo, mask, "history")
+				if len(seq) == 2 && strings.Contains(seq[0].name, "drift") && strings.Contains(seq[1].name, "drift") {
+					// two small steps away from the initial value: always also with the tolerance
+					runHistory(r, isVal, true, 1, init, seq, false, nil, "history")
+				}
 			}
 		}
 		// random longer histories
@@ -607,13 +664,18 @@ func run(r *vk.Run) {
 		}
 	}
 	r.Require("histories", 500)
+	r.Require("histories-with-tolerance-equivalence", 100)
 }
 
 // runHistoryRandom opens subscribers with random options at random positions (at most 4 alive).
 func runHistoryRandom(r *vk.Run, isVal, eq bool, init map[string]*tat, seq []opGen, rng *vk.Rand) {
-	w := newWorld(r, isVal, eq, init)
+	tol := int32(0)
+	if eq && rng.Bool() {
+		tol = 1
+	}
+	w := newWorldTol(r, isVal, eq, tol, init)
 	defer w.close()
-	w.trace = append(w.trace, fmt.Sprintf("isValue=%v equivalence=%v init=%s", isVal, eq, w.state.Render()))
+	w.trace = append(w.trace, fmt.Sprintf("isValue=%v equivalence=%v tolerance=%d init=%s", isVal, eq, w.tol, w.state.Render()))
 	var names []string
 	for i, g := range seq {
 		if len(w.subs) < 4 && (i == 0 || rng.Chance(1, 4)) {
@@ -631,7 +693,10 @@ func runHistoryRandom(r *vk.Run, isVal, eq bool, init map[string]*tat, seq []opG
 	}
 	r.Count("histories", 1)
 	r.Count("random-histories", 1)
-	r.Distinct(fmt.Sprintf("rand|%v|%v|%d|%s", isVal, eq, len(init), strings.Join(names, ",")))
+	r.Distinct(fmt.Sprintf("rand|%v|%v%d|%d|%s", isVal, eq, tol, len(init), strings.Join(names, ",")))
+	if tol > 0 {
+		r.Count("histories-with-tolerance-equivalence", 1)
+	}
 	if r.WantSample("random-history") {
 		r.Sample("random-history", w.trace)
 	}
